@@ -30,10 +30,12 @@ var properties = map[string][]harnessSpec{
 	},
 	"C01": {
 		{Name: "cmd.VerifC01FlagOverride", Marks: end},
+		{Name: "play.VerifC01WriteSequence", Quick: map[string]int{"C01.maxInstances": 2}, Thorough: map[string]int{"C01.maxInstances": 3}, Marks: end},
 		{Name: "play.VerifC01Pitch", Quick: map[string]int{"C01.mode": 1, "C01.maxDegree": 15}, Thorough: map[string]int{"C01.mode": 0, "C01.maxDegree": 15}, Marks: []string{"end", "rejected", "same-order"}},
 		{Name: "play.VerifC01Pitch", Quick: map[string]int{"C01.mode": 2, "C01.maxDegree": 8}, Thorough: map[string]int{"C01.mode": 2, "C01.maxDegree": 22}, Marks: []string{"end", "rejected"}},
 	},
 	"C02": {
+		{Name: "play.VerifC01WriteSequence", Quick: map[string]int{"C01.maxInstances": 2}, Thorough: map[string]int{"C01.maxInstances": 3}, Marks: end},
 		{Name: "midix.VerifC02NoteStep", Quick: map[string]int{"C02.maxTracks": 3, "C02.maxKeys": 4}, Thorough: map[string]int{"C02.maxTracks": 4, "C02.maxKeys": 6}, Marks: end},
 		{Name: "midix.VerifC02RestStep", Marks: end},
 		{Name: "midix.VerifC02ControlStep", Marks: end},
@@ -42,6 +44,7 @@ var properties = map[string][]harnessSpec{
 		{Name: "midix.VerifC02Ticks3", Solver: "cvc5", TimeoutS: 300, Quick: map[string]int{"C02.numDenoms3": 1, "C02.maxNum3": 7}, Thorough: map[string]int{"C02.numDenoms3": 4, "C02.maxNum3": 15}, Marks: end},
 	},
 	"C07": {
+		{Name: "play.VerifC01WriteSequence", Quick: map[string]int{"C01.maxInstances": 2}, Thorough: map[string]int{"C01.maxInstances": 3}, Marks: end},
 		{Name: "play.VerifC07SettingsStep", Marks: end},
 		{Name: "play.VerifC07Texts", Quick: map[string]int{"C07.maxText": 3}, Thorough: map[string]int{"C07.maxText": 6}, Marks: end},
 		{Name: "play.VerifC07Dynamics", Marks: end},
